@@ -389,8 +389,14 @@ func TestC12Trees(t *testing.T) {
 		if sqrtFold {
 			col.Excluded("known:sqrt-fold (run without optimizer only)")
 		}
+		// where the expression stands, and what the parser has been through
+		// before it gets there, does not change how it groups
+		surroundings := []string{"return %s;", "return %s;", "zz = %s; return zz;", "function zf() { return %s; }\nreturn zf();", "if ( true ) { return %s; }\nreturn \"no\";",
+			"function zt(q) { return q ? 1 : 2; }\nzu = zt(a) ? b : c;\nreturn %s;", "function zt(q) { if ( q ) { return [q][0] / 2; } return (q) ? -q : q / 1; }\nreturn %s;",
+			"zq = [a, b][1] / 2 - -c;\nzr = a ? (b) : [c];\nreturn %s;", "foreach zi in [1] { return %s; }", "switch ( 1 ) { case 1 { return %s; } }\nreturn \"no\";"}
+		surround := surroundings[gen.Uniform(rt, "surroundings", len(surroundings))]
 		for _, txt := range []string{minimal, redundant, full} {
-			c := &Case{Prop: "C12", Kind: "meaning", Script: "return " + txt + ";", Vars: vars, Exp: exp,
+			c := &Case{Prop: "C12", Kind: "meaning", Script: fmt.Sprintf(surround, txt), Vars: vars, Exp: exp,
 				HostVals: map[string]lang.Value{}, NoOpt: rapid.Bool().Draw(rt, "noopt") || sqrtFold, Hazard: lang.HasRange(tree), HashOrder: lang.HasMultiHash(tree)}
 			if err := runMeaning(c); err != nil {
 				violation(rt, "C12", c, "%v", err)
